@@ -963,11 +963,11 @@ func init() {
 		},
 		SelfTest: gcsSelfTest,
 		Streams: []*vf.Stream{
-			{Name: "random", N: func(t vf.Tier) int { return t.Sz(1500, 30000) }, Run: c14random, RlimitAS: gcsRlimit, MaxCaseSec: 120},
+			{Name: "random", N: func(t vf.Tier) int { return t.Sz(3000, 30000) }, Run: c14random, RlimitAS: gcsRlimit, MaxCaseSec: 120},
 			{Name: "grid", N: func(t vf.Tier) int { return gcsGridCount() * t.Sz(1, 2) }, Run: c14grid, RlimitAS: gcsRlimit},
 			{Name: "reduction", N: func(t vf.Tier) int { return 2 + t.Sz(2500, 25000) }, Run: c14reduction},
-			{Name: "blocks", N: func(t vf.Tier) int { return t.Sz(10000, 150000) }, Run: c14block, RlimitAS: gcsRlimit},
-			{Name: "chain", N: func(t vf.Tier) int { return t.Sz(8000, 100000) }, Run: c14chain, RlimitAS: gcsRlimit},
+			{Name: "blocks", N: func(t vf.Tier) int { return t.Sz(40000, 150000) }, Run: c14block, RlimitAS: gcsRlimit},
+			{Name: "chain", N: func(t vf.Tier) int { return t.Sz(30000, 100000) }, Run: c14chain, RlimitAS: gcsRlimit},
 		},
 	})
 }
